@@ -1,5 +1,155 @@
-"""Checker self-test (mutants / twins); filled in later."""
+"""Checker self-test: mutants (must fire), twins (must stay silent), defect replays.
+
+Each case is a text edit applied to a scratch copy of the analysed part of /repo (src/python,
+specs, docs) outside /repo and /verif; the property check is run on the copy with
+RV_VERIF_REPO pointing at it and its evidence redirected into the scratch directory.  A case
+whose anchor text is absent from the tree under test is skipped and counted.  A self-test
+failure is an analysis error (exit 2), never a verdict on the property.
+"""
+
+from __future__ import annotations
+
+import json
+import os
+import shutil
+import subprocess
+import sys
+import tempfile
+from concurrent.futures import ThreadPoolExecutor
+from pathlib import Path
+from typing import Dict, List, Optional, Tuple
+
+HERE = Path(__file__).resolve().parent
+VERIF = HERE.parent
+COPY_DIRS = ["src/python", "specs", "docs"]
+
+
+def _repo_root() -> Path:
+    return Path(os.environ.get("RV_VERIF_REPO", "/repo"))
+
+
+def make_copy(dst: Path, src_root: Optional[Path] = None):
+    src_root = src_root or _repo_root()
+    for d in COPY_DIRS:
+        s = src_root / d
+        if s.is_dir():
+            shutil.copytree(s, dst / d, ignore=shutil.ignore_patterns("__pycache__", "*.pyc", "_build"))
+
+
+def apply_edits(root: Path, edits: List[Tuple[str, str, str]]) -> Optional[str]:
+    """edits: (relative file, old text, new text). Returns a skip reason or None."""
+    for rel, old, new in edits:
+        p = root / rel
+        if not p.is_file():
+            return f"file {rel} absent"
+        text = p.read_text(encoding="utf8")
+        if text.count(old) != 1:
+            return f"anchor text occurs {text.count(old)} times in {rel}"
+        p.write_text(text.replace(old, new), encoding="utf8")
+    return None
+
+
+def run_case(case: Dict, base: Path) -> Dict:
+    """Run one case in its own scratch copy. Returns a result dict."""
+    work = Path(tempfile.mkdtemp(prefix=f"rvsa-{case['id']}-", dir=str(base)))
+    try:
+        make_copy(work)
+        skip = apply_edits(work, case["edits"])
+        if skip:
+            return {"id": case["id"], "status": "skipped", "why": skip}
+        # the mutated file must still compile
+        for rel, _, _ in case["edits"]:
+            if rel.endswith(".py"):
+                try:
+                    compile((work / rel).read_text(encoding="utf8"), rel, "exec")
+                except SyntaxError as e:
+                    return {"id": case["id"], "status": "broken-case", "why": f"does not compile: {e}"}
+        env = dict(os.environ)
+        env["RV_VERIF_REPO"] = str(work)
+        env["RV_VERIF_EVIDENCE_DIR"] = str(work / "_evidence")
+        env["RV_VERIF_KNOWN"] = case.get("known_file", str(VERIF / "known_findings.json"))
+        env["VERIF_TIER"] = "quick"
+        props = case["props"] if isinstance(case.get("props"), list) else [case["prop"]]
+        results = {}
+        for prop in props:
+            p = subprocess.run([sys.executable, str(HERE / "check.py"), prop, "--tier", "quick"],
+                               cwd=str(VERIF), env=env, capture_output=True, text=True, timeout=300)
+            results[prop] = (p.returncode, p.stdout[-3000:])
+        return {"id": case["id"], "status": "ran", "results": results}
+    finally:
+        shutil.rmtree(work, ignore_errors=True)
+
+
+def evaluate(case: Dict, res: Dict) -> Tuple[bool, str]:
+    if res["status"] == "skipped":
+        return True, f"skipped ({res['why']})"
+    if res["status"] != "ran":
+        return False, res.get("why", res["status"])
+    expect = case["expect"]          # "V" violation, "T" silent twin
+    msgs = []
+    ok = True
+    for prop, (rc, out) in res["results"].items():
+        if expect == "V":
+            good = rc == 1 and "VIOLATION property=" + prop in out
+            if good and case.get("mention"):
+                good = case["mention"] in out
+            if not good:
+                ok = False
+                msgs.append(f"{prop}: expected VIOLATION{' mentioning ' + case['mention'] if case.get('mention') else ''}, got rc={rc}: {out[-400:]}")
+        else:
+            if rc != 0:
+                ok = False
+                msgs.append(f"{prop}: twin must stay silent, got rc={rc}: {out[-600:]}")
+    return ok, "; ".join(msgs) or "as expected"
+
+
+def load_cases(prop: Optional[str] = None) -> List[Dict]:
+    from sa import mutants
+    cases = mutants.CASES
+    if prop:
+        cases = [c for c in cases if prop in (c.get("props") or [c.get("prop")])]
+        # run each case only under the requested property
+        cases = [dict(c, props=[prop]) for c in cases]
+    return cases
+
+
+def run_cases(cases: List[Dict], jobs: int = 16, verbose: bool = True) -> int:
+    base = Path(tempfile.mkdtemp(prefix="rvsa-selftest-"))
+    failed = 0
+    skipped = 0
+    try:
+        with ThreadPoolExecutor(max_workers=jobs) as ex:
+            results = list(ex.map(lambda c: run_case(c, base), cases))
+        for case, res in zip(cases, results):
+            ok, msg = evaluate(case, res)
+            if res["status"] == "skipped":
+                skipped += 1
+            if not ok:
+                failed += 1
+            if verbose or not ok:
+                print(f"  selftest {case['id']:28s} [{case['expect']}] {'ok  ' if ok else 'FAIL'} {msg[:900]}")
+    finally:
+        shutil.rmtree(base, ignore_errors=True)
+    print(f"selftest: {len(cases)} cases, {failed} failed, {skipped} skipped")
+    return failed
 
 
 def run_for(prop: str) -> int:
-    return 0
+    cases = load_cases(prop)
+    if not cases:
+        print(f"selftest: no cases for {prop}")
+        return 0
+    failed = run_cases(cases, verbose=False)
+    if failed:
+        print(f"ANALYSIS-ERROR property={prop} checker self-test failed on {failed} case(s)")
+    return failed
+
+
+if __name__ == "__main__":
+    sys.path.insert(0, str(VERIF))
+    prop = sys.argv[1] if len(sys.argv) > 1 and sys.argv[1] != "all" else None
+    only = sys.argv[2] if len(sys.argv) > 2 else None
+    cs = load_cases(prop)
+    if only:
+        cs = [c for c in cs if only in c["id"]]
+    sys.exit(1 if run_cases(cs) else 0)
